@@ -25,7 +25,7 @@ RULE = ('(A) handshake: ALL device reply sequences over {CNXN ok, CNXN with malf
 ASSUMPTIONS = ['The transport is a scripted fake; a silent device is modelled as an immediate libusb timeout error.',
                'Any error type from the usb_exceptions hierarchy of the right class (auth / protocol / timeout) is accepted; other exception types are violations.']
 
-H_ALPHABET = ['CNXN', 'CNXNBAD', 'TOKEN', 'AUTHX', 'NOISE', 'SILENCE']
+H_ALPHABET = ['CNXN', 'CNXNBAD', 'TOKEN', 'AUTHX', 'NOISE', 'SILENCE', 'SPAM']
 NOISE = [('OKAY', 1, 2, ''), ('WRTE', 1, 2, 'n'), ('SYNC', 0, 0, ''), ('OPEN', 5, 0, 'x\0'), ('CLSE', 1, 2, '')]
 TIMEOUT_ERRS = ('UsbReadFailedError', 'AdbTimeoutError')
 
@@ -43,6 +43,8 @@ def replies_of(seq):
       out.append(('AUTH', 2, 0, 'sig%d' % i))
     elif s == 'NOISE':
       out.append(NOISE[i % len(NOISE)])
+    elif s == 'SPAM':
+      out.append(('SPAM', 0, 0, ''))
     else:
       out.append(('SILENCE', 0, 0, ''))
   return out
@@ -62,6 +64,9 @@ def handshake_reference(seq, nkeys):
         return 'SILENCE'
       rp = replies[pos[0]]
       pos[0] += 1
+      if rp[0] == 'SPAM':
+        pos[0] -= 1          # unrelated packets until the host's timeout: like silence, the awaited packet never comes
+        return 'SILENCE'
       if rp[0] == 'SILENCE':
         return 'SILENCE'
       if rp[0] in accept:
@@ -104,7 +109,9 @@ def check_handshake(case):
   signlog = []
   keys = [fk.FakeSigner(k, signlog) for k in range(nkeys)]
   try:
-    conn = m.adb_protocol.AdbConnection.connect(dev, rsa_keys=keys or None, timeout_ms=2000, auth_timeout_ms=200)
+    # an endless stream of unrelated packets keeps the host busy for its whole (real-time) timeout: keep that short
+    spam = 'SPAM' in seq
+    conn = m.adb_protocol.AdbConnection.connect(dev, rsa_keys=keys or None, timeout_ms=120 if spam else 2000, auth_timeout_ms=60 if spam else 200)
     got = ('conn', conn.maxdata, conn.systemtype, conn.serial, conn.banner)
   except Exception as e:  # pylint: disable=broad-except
     got = ('err', type(e).__name__, str(e)[:80])
@@ -379,6 +386,8 @@ def run_job(job, acct):
     i = 0
     for n in range(0, job['maxlen'] + 1):
       for seq in itertools.product(H_ALPHABET, repeat=n):
+        if 'SPAM' in seq[:-1]:
+          continue      # nothing after the start of the endless stream is ever sent
         for keys in (0, 1, 2):
           i += 1
           if i % job['nshards'] != job['shard']:
